@@ -3,7 +3,7 @@
 exploration order of Python's `re`:
 
     <(?P<tag>[A-Z0-9./_ ]+?)>
-        ((<!\[CDATA\[(?P<cdata>.+?)\]\]>)|(?P<text>[^<]+))?
+        ((<!\[CDATA\[(?P<cdata>.+?)\]\]>\s*)|(?P<text>[^<]+))?
     (</(?P<closetag>(?P=tag))>)?
     (?P<tail>[^<]+)?                                   (re.VERBOSE)
 
@@ -15,6 +15,12 @@ Facts reproduced (each exercised by the `lex` correspondence):
   *first* `]]>` on the line that leaves at least one character of data (everything after the group is
   optional, so the lazy quantifier is never extended further); when no such `]]>` exists on the line the
   alternative fails and `[^<]+` is tried (it then fails too, because the next character is `<`);
+* `\s*` after `]]>` (since /repo's `fix: white space may follow a CDATA section`): greedy, and everything after it is
+  optional, so it takes the maximal run of white space and is never given back; the pattern is a `str`, so `\s` is
+  Unicode white space as `re` defines it (`Py_UNICODE_ISSPACE`), which is the predicate of `str.isspace()`: the two
+  agree on every code point (0..0x10FFFF, checked on the running interpreter by `harness/corr/C02.py`), i.e. `\s` is
+  `Ofx.isSpace` (the 29 code points of `Generated/Tables.isspaceCodepoints`); the white space belongs to the match
+  (spans) but to no named group: it is neither `cdata` nor `tail`;
 * every group after the tag is optional and the first alternative explored that succeeds is kept, so
   there is never backtracking into `text` or `tail` (`[^<]+` is the maximal run);
 * `(?P=tag)` compares with the captured tag literally;
@@ -79,10 +85,10 @@ def optStr : Str → Option Str
   | [] => none
   | s => some s
 
-/-- `((<!\[CDATA\[(?P<cdata>.+)\]\]>)|(?P<text>[^<]+))?` → (cdata, text, rest) -/
+/-- `((<!\[CDATA\[(?P<cdata>.+?)\]\]>\s*)|(?P<text>[^<]+))?` → (cdata, text, rest) -/
 def scanBody (r : Str) : Option Str × Option Str × Str :=
   match (dropPrefix cdataOpen r).bind scanCdata with
-  | some (cd, r') => (some cd, none, r')
+  | some (cd, r') => (some cd, none, r'.dropWhile isSpace)
   | none => (none, optStr (r.takeWhile notLt), r.dropWhile notLt)
 
 /-- `(</(?P<closetag>(?P=tag))>)?` → (closetag, rest) -/
